@@ -1,6 +1,7 @@
 package sim
 
 import (
+	"reflect"
 	"sync"
 	"syscall"
 	"unsafe"
@@ -233,6 +234,11 @@ func lockAddr(l interface{}) uintptr {
 		return uintptr(unsafe.Pointer(v))
 	case *sync.RWMutex:
 		return uintptr(unsafe.Pointer(v))
+	case *sync.WaitGroup:
+		return uintptr(unsafe.Pointer(v))
+	}
+	if rv := reflect.ValueOf(l); rv.Kind() == reflect.Chan {
+		return rv.Pointer()
 	}
 	return 1
 }
